@@ -12,6 +12,7 @@ import (
 
 	"verifharness/fw"
 	"verifharness/gen"
+	"verifharness/keys"
 	"verifharness/refpeer"
 )
 
@@ -137,7 +138,7 @@ func lookalikes(live *ua.NodeID) map[string]*ua.NodeID {
 func c35Run(c *fw.Ctx) error {
 	reg := gen.LoadRegistry()
 	types := requestTypes(reg)
-	rs, err := startRealServer(srvCfg{Vars: 3})
+	rs, err := startRealServer(srvCfg{Vars: 3, Sec: []secPair{{"None", 1}, {"Basic256Sha256", 2}}})
 	if err != nil {
 		return err
 	}
@@ -194,6 +195,33 @@ func c35Run(c *fw.Ctx) error {
 		"made-up-guid":  ua.NewGUIDNodeID(1, "12345678-1234-1234-1234-123456789abc"),
 	}
 	tokNames := []string{"null", "unknown", "closed", "not-activated", "other-server", "made-up-guid"}
+	// a session whose activation was refused: created over a Sign channel, ActivateSession with a client signature
+	// over the wrong data
+	func() {
+		pol := refpeer.PolicyByURI(refpeer.URIBasic256Sha256)
+		sk, ck := keys.Get("b", 2048), keys.Get("a", 2048)
+		sch, _, err := refpeer.Dial(addr, refpeer.ClientOpts{Hello: refpeer.Hello{URL: rs.Endpoint}, Sec: refpeer.Security{Policy: pol, Mode: 2, LocalKey: ck.Key, LocalCert: ck.Cert, RemoteCert: sk.Cert}})
+		if err != nil {
+			return
+		}
+		defer sch.Close()
+		if _, err := sch.Open(false, 3600000); err != nil {
+			return
+		}
+		scs, err := sch.CreateSession(rs.Endpoint, ck.Cert)
+		if err != nil {
+			return
+		}
+		bad, _ := pol.AsymSign(ck.Key, append(append([]byte{}, scs.ServerNonce...), scs.ServerCertificate...))
+		v, err := sch.ActivateSession(scs.AuthenticationToken, "anonymous_none", &ua.SignatureData{Algorithm: pol.AsymSigURI, Signature: bad})
+		if _, ok := v.(*ua.ActivateSessionResponse); ok && err == nil {
+			c.Class("activation-with-an-invalid-client-signature-was-accepted", 1)
+			return
+		}
+		tokens["activation-refused"] = scs.AuthenticationToken
+		tokNames = append(tokNames, "activation-refused")
+	}()
+	sort.Strings(tokNames[6:])
 	// tokens that were never issued but resemble the live token of the valid session: same identifier in another
 	// namespace, the same identifier under another encoding, neighbours of a numeric identifier
 	for name, t := range lookalikes(goodTok) {
@@ -250,6 +278,12 @@ func c35Run(c *fw.Ctx) error {
 				if err != nil {
 					// no answer at all (connection closed or timeout): not an answer with content; reopen and go on
 					c.Class("outcome:no-answer", 1)
+					if name == "PublishRequest" && strings.Contains(err.Error(), "timeout") {
+						// the connection is still there and the request is simply kept: the server has queued a publish
+						// request for a token that names no activated session
+						cse.Status = "no answer within 3 s, connection open"
+						c.Violation("c35:publish-request-kept-without-session:"+tn, fmt.Sprintf("PublishRequest with a %s token got no session error: it stays unanswered on an open connection (queued)", tn), cse)
+					}
 					ch.Close()
 					if ch, err = mk(); err != nil {
 						return fmt.Errorf("server no longer accepts channels after %s/%s: %v", name, tn, err)
@@ -288,7 +322,7 @@ func init() {
 	fw.Register("C35", fw.Spec{
 		Plan: func(tier string) fw.Plan {
 			p := fw.Plan{Batches: 4, TimeoutS: 900, MinNontrivial: 200, Level: "exploration",
-				Rule:        "every request type registered in the tree under test x token state {null, unknown, closed, created-not-activated, live token of a second server in the same process, made-up GUID, never-issued look-alikes of a live token: same identifier in another namespace / under another id encoding / neighbouring numbers} x generated bodies (half of them aimed at a visible effect: write a unique value, create a subscription) sent by the independent scripted client over a bare secure channel to the real server; oracle: the answer is a session error (or BadServiceUnsupported) and values / subscription table / monitored item table (inspected in-process) are unchanged; a write under a valid session is the control; distinct = (type, token state, body index)",
+				Rule:        "every request type registered in the tree under test x token state {null, unknown, closed, created-not-activated, created with a refused activation (invalid client signature on a Sign channel), live token of a second server in the same process, made-up GUID, never-issued look-alikes of a live token: same identifier in another namespace / under another id encoding / neighbouring numbers} x generated bodies (half of them aimed at a visible effect: write a unique value, create a subscription) sent by the independent scripted client over a bare secure channel to the real server; oracle: the answer is a session error (or BadServiceUnsupported) and values / subscription table / monitored item table (inspected in-process) are unchanged; a write under a valid session is the control; distinct = (type, token state, body index)",
 				Assumptions: []string{"FindServers*, GetEndpoints, RegisterServer*, Create/Activate/CloseSession, Open/CloseSecureChannel and Cancel are the exempt discovery / session services"}}
 			if tier == "thorough" {
 				p.Batches, p.TimeoutS, p.MinNontrivial = 16, 3000, 20000
